@@ -207,6 +207,27 @@ Proof.
   reflexivity.
 Qed.
 
+(* ================================================================== pandora.common.sliding_window *)
+
+(* the generated sliding_window (shape tuple, doubled strides, as_strided) of a C-contiguous h x w
+   array: no error, (h - w0 + 1) x (w - w1 + 1) windows of size w0 x w1, element (i, j, a, b) is
+   element (i + a, j + b) of the array -- every offset of the view falls on that element, inside
+   the memory of the array *)
+Theorem gen_sliding_window_is : forall (X : nd oq) h w g w0 w1, is2 X h w g ->
+  0 <= w0 <= h -> 0 <= w1 <= w ->
+  is4 (g_sliding_window X [w0; w1]) (h - w0 + 1) (w - w1 + 1) w0 w1 (fun i j a b => g (i + a) (j + b)).
+Proof.
+  intros X h w g w0 w1 (He & Hs & Hg) H0 H1. unfold g_sliding_window, np_as_strided, np_strides, np_shape, is4.
+  cbv zeta. rewrite Hs, He. cbn [nth c_strides fold_right app length Nat.eqb negb orb existsb err shp elt].
+  replace (h - w0 + 1 <? 0) with false by lia. replace (w - w1 + 1 <? 0) with false by lia.
+  replace (w0 <? 0) with false by lia. replace (w1 <? 0) with false by lia. cbn [orb].
+  repeat split; auto. intros i j a b Hi Hj Ha Hb. cbn [dot unravel fold_right].
+  assert (Hw : 0 < w) by lia.
+  replace (i * (w * 1) + (j * 1 + (a * (w * 1) + (b * 1 + 0)))) with ((j + b) + (i + a) * w) by ring.
+  rewrite !Z.mul_1_r, Z.div_1_r. rewrite Z_mod_plus_full, Z_div_plus_full by lia.
+  rewrite Z.mod_small, Z.div_small by lia. rewrite Z.add_0_l. apply Hg; lia.
+Qed.
+
 (* ================================================================== the block loop hole *)
 
 (* the hole instantiated with a GENERATED skeleton accepted by filter_skeleton_ok: for every
@@ -251,7 +272,7 @@ Proof.
   destruct (is2_shape _ _ _ _ _ HD) as (S0 & S1). rewrite S0, S1. unfold np_copy.
   destruct ((ny <? w) || (nx <? w)) eqn:Esmall; [exact HD|].
   apply orb_false_iff in Esmall. destruct Esmall as [Ey Ex]. apply Z.ltb_ge in Ey, Ex.
-  pose proof (sliding_window_4 _ D _ _ _ w w HD ltac:(lia) ltac:(lia)) as HW.
+  pose proof (gen_sliding_window_is D _ _ _ w w HD ltac:(lia) ltac:(lia)) as HW.
   pose proof (skel_block_loop_is _ sk (fun X => np_nanmedian_23 X) _ _ _ _ _ _ _ _ _ Hok HW HD Hw ltac:(lia) ltac:(lia)) as HL.
   pose proof (setitem_mask_2 _ _ _ None _ _ _ _ HL (map_2 _ _ o_none _ _ _ _ HD)) as HR.
   eapply is2_ext; [exact HR|]. intros r c Hr Hc. cbv beta.
@@ -363,7 +384,7 @@ Proof.
   destruct (win_width_le ny nx ss) as [Hy Hx]. fold win in Hy, Hx.
   rewrite py_int_div_half by lia. set (lo := win / 2).
   assert (Hlo : 0 <= lo < win) by (unfold lo; pose proof (Z.mul_div_le win 2); pose proof (Z.mul_succ_div_gt win 2); lia).
-  pose proof (sliding_window_4 _ D _ _ _ win win HD ltac:(lia) ltac:(lia)) as HW.
+  pose proof (gen_sliding_window_is D _ _ _ win win HD ltac:(lia) ltac:(lia)) as HW.
   pose proof (gauss_spatial_kernel_is ngs win ss ltac:(lia)) as HG.
   pose proof (skel_block_loop_is _ sk (fun X => g_bilateral_kernel ng X (g_gauss_spatial_kernel ngs win ss) sc lo)
                 _ _ _ _ _ _ _ _ _ Hok HW HD ltac:(lia) ltac:(lia) ltac:(lia)) as HL.
@@ -573,4 +594,58 @@ Proof.
   intros ex sq pi x sigma Hex Hsq Hpi Hs. cbn [geval gaussian_formula]. unfold Qdiv at 1.
   apply Qmult_lt_0_compat; [apply Hex|]. apply Qinv_lt_0_compat.
   apply Qmult_lt_0_compat; [assumption|]. apply Hsq. apply Qmult_lt_0_compat; [reflexivity | assumption].
+Qed.
+
+(* ================================================================== consequences, on the generated code *)
+
+(* any output satisfying the Spec of the bilateral step lies between the smallest and the largest
+   valid value of the window (convexity in Q) *)
+Lemma bilateral_spec_between : forall inv lo hi ny nx sp rg disp mask disp' mask' r c cv,
+  0 <= lo -> 0 <= hi -> Spec.Filters.kernel_ok sp rg lo hi ->
+  Spec.Filters.bilateral_step_spec inv lo hi ny nx sp rg disp mask disp' mask' ->
+  Spec.Filters.fits lo hi ny nx r c -> Spec.Filters.valid_disp inv disp mask r c = Some cv ->
+  exists m, disp' r c = Some m /\
+            Spec.Filters.between_min_max m (Spec.Filters.win_vals (Spec.Filters.valid_disp inv disp mask) lo hi r c).
+Proof.
+  intros inv lo hi ny nx sp rg disp mask disp' mask' r c cv Hlo Hhi Hk (_ & _ & _ & H) Hf Hv.
+  destruct (H r c Hf cv Hv) as (m & Hm & Hw). exists m. split; [exact Hm|].
+  set (val := Spec.Filters.valid_disp inv disp mask) in *.
+  assert (Hne : Spec.Filters.win_vals val lo hi r c <> []).
+  { intro E. assert (Hin : In cv (Spec.Filters.win_vals val lo hi r c)).
+    { apply In_somes, in_map_iff. exists (r, c). split; [exact Hv | apply In_win_px; lia]. }
+    rewrite E in Hin. exact Hin. }
+  destruct (list_min_max _ Hne) as (a & b & Ha & Hb & Hall).
+  exists a, b. split; [exact Ha|]. split; [exact Hb|]. split; [exact Hall|].
+  apply (wmean_bounds m _ a b Hw). intros t Ht. split.
+  - apply In_win_terms in Ht. destruct Ht as (r' & c' & v & Hr & _ & ->). cbn [fst].
+    destruct Hk as (Hsp & Hrg & _). apply Qmult_le_0_compat; [apply Hsp; lia | apply Hrg].
+  - apply Hall. rewrite <- (win_terms_values sp rg val lo hi r c cv). apply in_map. exact Ht.
+Qed.
+
+(* the generated filters do not depend on WHICH accepted block loop runs them (any block size
+   >= 1): every pixel of the image gets the same value *)
+Theorem gen_block_independent : forall sk sk' rad D ny nx data ng ngs ss sc,
+  is2 D ny nx data -> 0 <= rad ->
+  (filter_skeleton_ok KNanMedian sk = true -> filter_skeleton_ok KNanMedian sk' = true ->
+   forall r c, 0 <= r < ny -> 0 <= c < nx ->
+     elt (g_median_filter (skel_block_loop sk) (2 * rad + 1) D) [r; c]
+     = elt (g_median_filter (skel_block_loop sk') (2 * rad + 1) D) [r; c]) /\
+  (filter_skeleton_ok KBilateral sk = true -> filter_skeleton_ok KBilateral sk' = true ->
+   (0 <= ss)%Q -> 1 <= win_width ny nx ss ->
+   forall r c, 0 <= r < ny -> 0 <= c < nx ->
+     elt (g_filter_bilateral ng ngs (skel_block_loop sk) D ss sc) [r; c]
+     = elt (g_filter_bilateral ng ngs (skel_block_loop sk') D ss sc) [r; c]).
+Proof.
+  intros sk sk' rad D ny nx data ng ngs ss sc HD Hrad. split.
+  - intros Hok Hok' r c Hr Hc.
+    destruct (gen_median_filter_is_model sk (2 * rad + 1) D ny nx data Hok ltac:(lia) HD) as (_ & _ & H1).
+    destruct (gen_median_filter_is_model sk' (2 * rad + 1) D ny nx data Hok' ltac:(lia) HD) as (_ & _ & H2).
+    rewrite H1, H2 by assumption.
+    destruct (SkelFiltersP.filter_loop_params _ sk Hok) as (HB & _).
+    destruct (SkelFiltersP.filter_loop_params _ sk' Hok') as (HB' & _).
+    apply median_filter_block_independent; assumption.
+  - intros Hok Hok' Hss Hwin r c Hr Hc.
+    destruct (gen_filter_bilateral_at sk ng ngs D ny nx data ss sc Hok Hss Hwin HD) as (_ & _ & H1).
+    destruct (gen_filter_bilateral_at sk' ng ngs D ny nx data ss sc Hok' Hss Hwin HD) as (_ & _ & H2).
+    rewrite H1, H2 by assumption. reflexivity.
 Qed.
